@@ -1,8 +1,8 @@
 use super::interfaces::{is_iseq, is_iseqable};
-use parking_lot::ReentrantMutex;
+use parking_lot::{ReentrantMutex, ReentrantMutexGuard};
 use pyo3::exceptions::PyTypeError;
 use pyo3::prelude::*;
-use pyo3::sync::PyOnceLock;
+use pyo3::sync::{MutexExt, PyOnceLock};
 use pyo3::types::{PyBool, PyDict, PyIterator, PyTuple, PyType};
 use pyo3::{intern, IntoPyObjectExt, PyTypeInfo};
 use std::cell::RefCell;
@@ -425,6 +425,20 @@ pub struct LazySeq {
     meta: Py<PyAny>,
 }
 
+impl LazySeq {
+    /// Acquire the state lock without holding up the rest of the interpreter.
+    ///
+    /// The lock is held across the call to the generator function, which may release
+    /// the GIL (blocking I/O, `time.sleep`, ...). A second thread which then tried to
+    /// take the lock with a plain blocking `lock()` would wait for the mutex while
+    /// holding the GIL, and the first thread would wait for the GIL while holding the
+    /// mutex: the whole interpreter deadlocks. `lock_py_attached` detaches from the
+    /// interpreter while it waits.
+    fn lock_state(&self, py: Python<'_>) -> ReentrantMutexGuard<'_, RefCell<LazySeqState>> {
+        self.lock.lock_py_attached(py)
+    }
+}
+
 #[pymethods]
 impl LazySeq {
     #[new]
@@ -469,7 +483,7 @@ impl LazySeq {
     // before calling `(seq ...)` on the result, which is cached.
 
     fn _compute_seq(&self, py: Python) -> PyResult<Py<PyAny>> {
-        let mutex = self.lock.lock();
+        let mutex = self.lock_state(py);
         let state = mutex.borrow();
         match state.deref() {
             LazySeqState::Computing => return Ok(py.None()),
@@ -517,7 +531,7 @@ impl LazySeq {
     }
 
     fn seq(&self, py: Python) -> PyResult<Py<PyAny>> {
-        let mutex = self.lock.lock();
+        let mutex = self.lock_state(py);
         let state = mutex.borrow();
         if let LazySeqState::Realized(seq) = state.deref() {
             return Ok(seq.as_ref().clone_ref(py));
@@ -613,7 +627,7 @@ impl LazySeq {
 
     #[getter(is_realized)]
     fn is_realized<'py>(&self, py: Python<'py>) -> PyResult<Borrowed<'py, 'py, PyBool>> {
-        let mutex = self.lock.lock();
+        let mutex = self.lock_state(py);
         let state = mutex.deref().borrow();
         Ok(PyBool::new(py, matches!(*state, LazySeqState::Realized(_))))
     }
